@@ -1576,6 +1576,26 @@ theorem num_f64_analyze_any_schedule (keep rev : Bool) (ops : List NumOp) (s : N
     exact ⟨hs, medianF_sorted_unique rev o _ kept hs hf, fun p => quantileF_sorted_unique rev o _ kept hs hf p,
       modeF_sorted_unique rev o _ kept hs hf⟩
 
+/-- **What `Reverse` (`rare analyze --reverse`) means.**  The view sorted with `Reverse` is the ascending view read
+backwards: rank `k` of the ascending arrangement and rank `n-1-k` of the reversed one are the same value (up to the sign of
+a zero / the identity of a NaN), for every pair of sorted arrangements.  So `Quantile(p)` with `Reverse` is the
+`(n-1-⌊n·p⌋)`-th smallest sample, and `Median()` (rank `⌊n/2⌋` in both) is the UPPER median ascending but the LOWER
+median with `Reverse` when `n` is even (`n = 4`: ascending rank 2, reversed rank 2 = ascending rank 1). -/
+theorem num_f64_reverse_mirrors (l s s' : List F64) (hs : IsSortedF false s l) (hs' : IsSortedF true s' l)
+    (k : Nat) (hk : k < l.length) :
+    ∃ x x', s[k]? = some x ∧ s'[l.length - 1 - k]? = some x' ∧ sameF x x' = true := by
+  have h1 : IsSortedF true s.reverse l := (isSortedF_reverse false s l).mp hs
+  have len : s.length = l.length := hs.1.length_eq
+  have len' : s'.length = l.length := hs'.1.length_eq
+  have hk1 : k < s.length := by omega
+  have hk2 : l.length - 1 - k < s'.length := by omega
+  refine ⟨s[k], s'[l.length - 1 - k], List.getElem?_eq_getElem hk1, List.getElem?_eq_getElem hk2, ?_⟩
+  have e : s.reverse[l.length - 1 - k]? = some s[k] := by
+    rw [List.getElem?_reverse (by omega)]
+    have : s.length - 1 - (l.length - 1 - k) = k := by omega
+    rw [this]; exact List.getElem?_eq_getElem hk1
+  exact rank_unique true s.reverse s' l h1 hs' _ _ _ e (List.getElem?_eq_getElem hk2)
+
 /-- **When could a re-sort be skipped?**  Appending a sample `v` to a non-empty sorted slice `o` leaves it sorted IFF `v`
 is not before the LAST stored value in the sort order – ascending: `v` is not below it; with `Reverse`: `v` is not ABOVE
 it (the direction flips with the flag; NaN sorts below every number in both).  In every other case the slice `Analyze()`
